@@ -27,20 +27,74 @@ pub const ALL_TYPES: [Ty; 6] = [
 #[derive(Clone, Copy, PartialEq, Eq, Debug, PartialOrd, Ord)]
 pub enum Codec {
     Json,
+    /// bincode's convenience functions: fixed-width little-endian integers
     Bincode,
+    /// `bincode::options()`: variable-length (zig-zag) integers
+    BincodeVar,
+    /// `bincode::options().with_fixint_encoding().with_big_endian()`
+    BincodeBe,
 }
 
 impl Codec {
+    pub fn is_binary(self) -> bool {
+        self != Codec::Json
+    }
+    /// Codec of a record: half text, half one of the three bincode configurations.
+    pub fn draw(rng: &mut Rng) -> Codec {
+        match rng.below(8) {
+            0..=3 => Codec::Json,
+            4 | 5 => Codec::Bincode,
+            6 => Codec::BincodeVar,
+            _ => Codec::BincodeBe,
+        }
+    }
+    /// The compact binary form of a raw count as the bincode configuration documents it
+    /// (written here independently of bincode).
+    pub fn expected_binary(self, raw: i64, width: usize) -> Option<Vec<u8>> {
+        match self {
+            Codec::Json => None,
+            Codec::Bincode => Some(if width == 4 { (raw as i32).to_le_bytes().to_vec() } else { raw.to_le_bytes().to_vec() }),
+            Codec::BincodeBe => Some(if width == 4 { (raw as i32).to_be_bytes().to_vec() } else { raw.to_be_bytes().to_vec() }),
+            Codec::BincodeVar => {
+                // zig-zag, then: < 251 one byte; else marker 251/252/253 + u16/u32/u64 little-endian
+                let z: u64 = if width == 4 {
+                    let v = raw as i32;
+                    (((v << 1) ^ (v >> 31)) as u32) as u64
+                } else {
+                    ((raw << 1) ^ (raw >> 63)) as u64
+                };
+                Some(if z < 251 {
+                    vec![z as u8]
+                } else if z < (1 << 16) {
+                    let mut v = vec![251u8];
+                    v.extend_from_slice(&(z as u16).to_le_bytes());
+                    v
+                } else if z < (1 << 32) {
+                    let mut v = vec![252u8];
+                    v.extend_from_slice(&(z as u32).to_le_bytes());
+                    v
+                } else {
+                    let mut v = vec![253u8];
+                    v.extend_from_slice(&z.to_le_bytes());
+                    v
+                })
+            }
+        }
+    }
     pub fn name(self) -> &'static str {
         match self {
             Codec::Json => "json",
             Codec::Bincode => "bincode",
+            Codec::BincodeVar => "bincode_varint",
+            Codec::BincodeBe => "bincode_big_endian",
         }
     }
     pub fn from_name(s: &str) -> Option<Codec> {
         match s {
             "json" => Some(Codec::Json),
             "bincode" => Some(Codec::Bincode),
+            "bincode_varint" => Some(Codec::BincodeVar),
+            "bincode_big_endian" => Some(Codec::BincodeBe),
             _ => None,
         }
     }
@@ -126,8 +180,12 @@ pub fn draw_value(rng: &mut Rng, ty: Ty) -> i64 {
                 Ty::Time => *rng.pick(&[0i64, 1, 999_999, 1_000_000, 59_999_999, 60_000_000, 3_599_999_999, 3_600_000_000, 43_199_999_999, 43_200_000_000, 86_399_000_000]),
                 Ty::Date | Ty::Timestamp | Ty::Oracle => {
                     // calendar corner days: month ends, leap days, year ends, first/last years
-                    let y = *rng.pick(&[1i64, 2, 4, 100, 400, 1582, 1900, 1970, 1999, 2000, 2024, 2100, 9996, 9998, 9999]);
-                    let (m, d) = *rng.pick(&[(1u32, 1u32), (1, 31), (2, 28), (2, 29), (3, 1), (4, 30), (6, 30), (7, 1), (12, 30), (12, 31), (10, 15), (11, 16)]);
+                    // (1582 and 1752: the days other calendars skip are ordinary days here)
+                    let y = *rng.pick(&[1i64, 2, 4, 100, 400, 1582, 1582, 1752, 1900, 1970, 1999, 2000, 2024, 2100, 9996, 9998, 9999]);
+                    let (m, d) = *rng.pick(&[
+                        (1u32, 1u32), (1, 31), (2, 28), (2, 29), (3, 1), (4, 30), (6, 30), (7, 1), (12, 30), (12, 31), (10, 15), (11, 16),
+                        (10, 4), (10, 5), (10, 9), (10, 14), (9, 2), (9, 3), (9, 13), (9, 14),
+                    ]);
                     let d = d.min(simcore::civil::days_in_month(y, m));
                     let days = simcore::civil::days_from_civil(y, m, d);
                     if ty == Ty::Date {
